@@ -18,6 +18,7 @@ EXPLANATION = (
 EXPLANATION_ADDED = "(R7) Backoff::advance clamps both the stored state and the returned delay by max; (R8) the retryable() tables classify the connection-lost variants as retryable and delegate for wrapping variants; R1 also covers the select's else arm; R4 also requires the wait to be the delay returned by advance()."
 EXPLANATION_ADDED2 = " (R9) handshake_timeout is armed around the whole connection attempt; (R10) the stream-request channel is acquired by awaiting only; R3 also requires reset() to act on the loop's generator (by-reference capture); R7 also decides the give-up predicate and count-by-one; R8 also evaluates the io::Error classifier per ErrorKind over its CFG (11 connection-loss kinds retryable, 6 fatal kinds fatal), the wildcard arms (fatal) and the tungstenite / tls tables; (R11) every conversion into the client Error on the connect path carries the error it converts (map_err mappers and Err-edge constructions)."
 EXPLANATION = EXPLANATION + " Added while testing against seeded changes: " + EXPLANATION_ADDED + EXPLANATION_ADDED2
+EXPLANATION = EXPLANATION + ' Round 10: R7 also requires advance to multiply the stored delay by `mult` and reset to restore `initial` and count 0.'
 ASSUMPTIONS = ["Duration arithmetic of Backoff::advance: only the clamping structure is decided (R7: stored state and returned delay are both bounded by max); the numeric delay sequence is left to the repository's unit tests"]
 NOT_DECIDED = "the delay values and the timing of attempts"
 QUICK_CONFIGS = ["default"]
@@ -375,6 +376,37 @@ def check(facts, rep, tier, cfg):
                 rep.ok("C19.R7", "delay-clamped", "%s (%s)" % (loc_str(b.loc), b.path), "Some(min(current, max))")
             else:
                 rep.bad("C19.R7", "delay-clamped", "%s (%s)" % (loc_str(b.loc), b.path), "the returned delay is not clamped by `max`")
+        def field_stores(body, fname):
+            out = []
+            t2 = Tracer(facts, body)
+            for bi2, blk2 in enumerate(body.blocks):
+                if bi2 not in body.reach0:
+                    continue
+                for s2 in blk2["stmts"]:
+                    pr2 = s2["lhs"].get("p") or [] if s2["k"] == "Assign" else []
+                    fl2 = [e["f"] for e in pr2 if isinstance(e, dict) and "f" in e]
+                    if fl2 and fl2[-1] == fname:
+                        out.append(strip(t2.rvalue(s2["rv"])))
+            return out
+        if b.name == "advance":
+            grows = [v for v in field_stores(b, "current")
+                     if any((x.kind == "bin" and x[1].startswith("Mul")) or (x.kind == "call" and x[6] in ("mul", "saturating_mul", "checked_mul")) for x in walk(v))
+                     and any(x.kind == "field" and x[2] == "mult" for x in walk(v))]
+            wg = "%s (%s)" % (loc_str(b.loc), b.path)
+            if grows:
+                rep.ok("C19.R7", "state-grows", wg, "current <- (..) * mult on every advance")
+            else:
+                rep.bad("C19.R7", "state-grows", wg, "Backoff::advance never multiplies the stored delay by `mult`: the k-th delay is not 200 ms x 2^k but stays constant")
+        if b.name == "reset":
+            cur = field_stores(b, "current")
+            cnt = field_stores(b, "count")
+            wr = "%s (%s)" % (loc_str(b.loc), b.path)
+            okr = any(v.kind == "field" and v[2] == "initial" for v in cur) and any(const_eval(v) == 0 for v in cnt)
+            if okr:
+                rep.ok("C19.R7", "reset-restores", wr, "current <- initial, count <- 0")
+            else:
+                rep.bad("C19.R7", "reset-restores", wr, "Backoff::reset does not restore both the initial delay and the zero retry count: after a successful "
+                                                        "connection the next failure does not start again from the shortest delay / the give-up count keeps accumulating")
     if mux is not None:
         rep.floor("C19.R7", "Backoff::advance obligations", k7, 2)
     # ---- R8 classification of the errors that mean "connection lost / could not be established"
